@@ -19,6 +19,7 @@ import (
 	"time"
 
 	"github.com/gobwas/ws"
+	"github.com/gobwas/ws/wsutil"
 )
 
 const unit = 40 * time.Millisecond
@@ -47,6 +48,7 @@ type deadConn struct {
 	resp     []byte
 	req      []byte
 	onFinal  func() // called right before the last response bytes are handed out
+	slowDL   time.Duration
 }
 
 func newDeadConn(hs time.Duration, fail bool) *deadConn {
@@ -167,6 +169,9 @@ func (c *deadConn) Close() error {
 	return nil
 }
 func (c *deadConn) setDL(t time.Time) {
+	if c.slowDL > 0 && !t.IsZero() && t.Before(time.Now()) {
+		time.Sleep(c.slowDL) // a conn whose SetDeadline takes its time (a wrapped or remote conn)
+	}
 	c.mu.Lock()
 	defer c.mu.Unlock()
 	c.calls++
@@ -188,7 +193,7 @@ func (c *deadConn) LocalAddr() net.Addr                { return nil }
 func (c *deadConn) RemoteAddr() net.Addr               { return nil }
 
 func parseU(s string) time.Duration {
-	if s == "never" || s == "neverT" {
+	if s == "never" || s == "neverT" || s == "neverD" {
 		return -1
 	}
 	n, _ := strconv.Atoi(s)
@@ -278,7 +283,11 @@ func dialcOnce(a []string) string {
 		case "deadline":
 			ctx, cancel = context.WithTimeout(context.Background(), parseU(f[1]))
 			cancelAt = parseU(f[1])
-		case "atfinish":
+		case "atfinish", "atfinishs":
+			if f[0] == "atfinishs" {
+				// … and poisoning the deadline takes a while: Dial still returns only after the watcher is through
+				conn.slowDL = unit
+			}
 			// forced order: the handshake I/O completes, and the context is cancelled (and the watcher given
 			// time to poison the conn) before Dial gets to call done()
 			ctx, cancel = context.WithCancel(context.Background())
@@ -307,6 +316,13 @@ func dialcOnce(a []string) string {
 			if hsF[0] == "neverT" {
 				// TLS (the default TLSClient over the scripted conn): the peer never answers the ClientHello
 				u = "wss://example.com/x"
+			}
+			if hsF[0] == "neverD" {
+				// through the debug wrapper with its response callback installed
+				dd := wsutil.DebugDialer{Dialer: d, OnResponse: func([]byte) {}}
+				_, _, _, err := dd.Dial(ctx, u)
+				ch <- res{err}
+				return
 			}
 			_, _, _, err := d.Dial(ctx, u)
 			ch <- res{err}
@@ -411,6 +427,18 @@ func genC20(tier string, r *rng) {
 			continue
 		}
 		run(fmt.Sprintf("dialc %s %s %s %s %s %s", k.bg, k.timeout, k.ctx, k.dial, k.hs, k.fail))
+	}
+	// the same through wsutil.DebugDialer (OnResponse set), the peer silent after the request
+	for _, k := range []c{
+		{"0", "0", "cancel:2", "0", "neverD", "0"}, {"0", "0", "deadline:2", "0", "neverD", "0"}, {"0", "2", "none", "0", "neverD", "0"},
+		{"1", "2", "none", "0", "neverD", "0"}, {"0", "7", "cancel:3", "1", "neverD", "0"},
+	} {
+		run(fmt.Sprintf("dialc %s %s %s %s %s %s", k.bg, k.timeout, k.ctx, k.dial, k.hs, k.fail))
+	}
+	// the context ends as the last response bytes arrive AND the conn is slow to take the poisoned deadline
+	for _, to := range []string{"0", "7"} {
+		run(fmt.Sprintf("dialc 0 %s atfinishs 0 1 0", to))
+		run(fmt.Sprintf("dialc 0 %s atfinishs 1 2 0", to))
 	}
 	// wss:// with a peer that accepts the connection and then stays silent: every way the limit can come
 	for _, k := range []c{
